@@ -326,7 +326,8 @@ class World:
             self.new_obj(int(a[0]))
             return None
         if op == 'res':
-            self.res.append(self.Resource())
+            # (a harness may hand out resources obtained another way, e.g. by loading an empty document)
+            self.res.append(self.res_factory() if getattr(self, 'res_factory', None) else self.Resource())
             return None
         if op == 'rappend':
             self.res[int(a[0])].append(O[int(a[1])]); return None
